@@ -226,3 +226,91 @@ def _after_edit_contract(edit):
 
 for _e in EDITS:
     _after_edit_contract(_e)
+
+
+# ---- bounded: catalogue glasses (file-backed materials selected by name, reference and wavelength range) ---------------------------
+def _catalogue(ct, tier, seed):
+    """lenses with catalogue materials, including the same glass name selected with different wavelength-range restrictions, are
+    reloaded one after the other in one process: each reloaded medium is the data set of the original medium (same file, same
+    index at several wavelengths), the reloaded dictionary equals the original one and the traces are identical"""
+    import json as _json
+    import time
+    import warnings
+    import numpy as np
+    from optiland.optic import Optic
+    from optiland.materials import Material
+    warnings.simplefilter('ignore')
+    np.seterr(all='ignore')
+    t0 = time.time()
+    clauses, fails, cases = {}, [], 0
+
+    def note(cid, ok, detail, inputs):
+        c_ = clauses.setdefault(cid, {'paths': 0, 'proved': 0, 'backends': {}, 'failed': [], 'seconds': 0.0, 'bounded': True})
+        c_['paths'] += 1
+        if ok:
+            c_['proved'] += 1
+            c_['backends']['runtime'] = c_['backends'].get('runtime', 0) + 1
+        else:
+            fails.append({'clause': cid, 'draws': inputs, 'note': detail})
+
+    def singlet(mats, w):
+        L = Optic()
+        L.add_surface(index=0, thickness=np.inf)
+        idx = 1
+        for m in mats:
+            L.add_surface(index=idx, radius=60.0, thickness=4.0, material=m, is_stop=(idx == 1))
+            L.add_surface(index=idx + 1, radius=-80.0, thickness=3.0)
+            idx += 2
+        L.add_surface(index=idx)
+        L.set_aperture('EPD', 6.0)
+        L.set_field_type('angle')
+        L.add_field(y=0.0)
+        L.add_field(y=2.0)
+        L.add_wavelength(w, is_primary=True)
+        return L
+    specs = [
+        ('BaF2 long-wave', lambda: [Material('BaF2', min_wavelength=8.0, max_wavelength=10.0)], 9.0),
+        ('BaF2 visible', lambda: [Material('BaF2', min_wavelength=0.45, max_wavelength=0.65)], 0.55),
+        ('BaF2 unrestricted + visible', lambda: [Material('BaF2'), Material('BaF2', min_wavelength=0.45, max_wavelength=0.65)], 0.55),
+        ('N-BK7 / F2 with reference', lambda: [Material('N-BK7', reference='schott'), Material('F2', reference='schott')], 0.55),
+    ]
+    for label, mk, w in specs:
+        try:
+            L = singlet(mk(), w)
+        except Exception:
+            continue
+        inputs = {'lens': label}
+        d = L.to_dict()
+        for route in ('dict', 'json text'):
+            try:
+                L2 = Optic.from_dict(d if route == 'dict' else _json.loads(_json.dumps(d)))
+            except Exception as ex:
+                note('C19.runtime.catalogue_lens_reloads', False, '%s via %s: %s: %s' % (label, route, type(ex).__name__, ex), inputs)
+                continue
+            cases += 1
+            same_media = True
+            for s1, s2 in zip(L.surface_group.surfaces, L2.surface_group.surfaces):
+                for side in ('material_pre', 'material_post'):
+                    m1, m2 = getattr(s1, side), getattr(s2, side)
+                    for ww in (w * 0.9, w, w * 1.1):
+                        try:
+                            same_media &= bool(np.isclose(float(np.ravel(m1.n(ww))[0]), float(np.ravel(m2.n(ww))[0]), rtol=1e-13, atol=0))
+                        except Exception:
+                            pass
+                    same_media &= getattr(m1, 'filename', None) == getattr(m2, 'filename', None)
+            note('C19.runtime.reloaded_catalogue_medium_is_the_same_data_set', same_media, '%s via %s' % (label, route), inputs)
+            note('C19.runtime.reloaded_catalogue_lens_has_the_same_dictionary', L2.to_dict() == d, '%s via %s' % (label, route), inputs)
+            r1 = L.trace_generic(0.0, 1.0, 0.1, 0.4, w)
+            r2 = L2.trace_generic(0.0, 1.0, 0.1, 0.4, w)
+            note('C19.runtime.reloaded_catalogue_lens_traces_identically',
+                 all(np.array_equal(getattr(r1, a), getattr(r2, a), equal_nan=True) for a in ('x', 'y', 'z', 'L', 'M', 'N', 'opd', 'i')), '%s via %s' % (label, route), inputs)
+            note('C19.runtime.reloaded_catalogue_lens_has_the_same_focal_length', float(L.paraxial.f2()) == float(L2.paraxial.f2()),
+                 '%s via %s: %s vs %s' % (label, route, float(L.paraxial.f2()), float(L2.paraxial.f2())), inputs)
+    return {'contract': ct.name, 'functions': ct.functions, 'props': ct.props,
+            'symbolic': {'clauses': clauses, 'paths': 0, 'errors': [], 'solver_s': 0.0, 'samples': [], 'wd_assumed': [], 'assumed': []},
+            'numeric': {'accepted': cases, 'rejected': 0, 'failures': fails[:10], 'concolic_agree': 0, 'encoder_mismatches': [],
+                        'samples': [{'lenses': [s_[0] for s_ in specs]}]}, 'wall_s': time.time() - t0}
+
+
+contract('C19.runtime.catalogue', ['optiland/materials/material.py:Material.__init__', 'optiland/materials/base.py:BaseMaterial.from_dict',
+                                   'optiland/materials/base.py:BaseMaterial.to_dict'], ['C19'], custom=_catalogue)(lambda c: None)
